@@ -214,6 +214,10 @@ func indepObserve(path string, back map[string]string) (lib.Ev, lib.Ev) {
 				d.Chunk = toInts(o.Chunk)
 			}
 			d.F64, d.Str, d.Cmp = readRes{Res: "err", Data: noData}, readRes{Res: "err", Data: noData}, readRes{Res: "err", Data: noData}
+			d.Raw = readRes{Res: "unsupported", Data: noData}
+			if o.Data != nil && len(o.Filters) == 0 && o.DataErr == "" {
+				d.Raw = readRes{Res: "ok", Data: descRaw(o.Data)}
+			}
 			if len(o.Filters) > 0 { // the decoder does not undo filters: the values are not judged through this view
 				d.F64, d.Str, d.Cmp = readRes{Res: "unsupported", Data: noData}, readRes{Res: "unsupported", Data: noData}, readRes{Res: "unsupported", Data: noData}
 			}
